@@ -111,6 +111,50 @@ theorem sumAxis_value : ∀ (sh : List Nat) (k : Nat) (d : List Int) (hk : k < s
     simp only [List.insertIdx_succ_cons, flatIdx]
     rw [block_getElem? d _ _ _ hm]
 
+/-! ### nesting: the value of a mean of a mean -/
+
+theorem meanArr_ok_data (a r : Arr) (k : Nat) (h : meanArr a k = .ok r) :
+    ∃ _ : k < a.shape.length, r.shape = a.shape.eraseIdx k ∧ r.data = sumAxis a.shape k a.data := by
+  unfold meanArr at h
+  split at h
+  · cases h
+  · rename_i n hn
+    have hk : k < a.shape.length := by
+      rcases Nat.lt_or_ge k a.shape.length with h' | h'
+      · exact h'
+      · rw [List.getElem?_eq_none h'] at hn; cases hn
+    simp only [Except.ok.injEq] at h
+    subst h
+    exact ⟨hk, rfl, rfl⟩
+
+/-- the value of a mean of a mean, in one formula: a double sum over the two removed axes -/
+theorem meanArr_nested_value (a r1 r2 : Arr) (k1 k2 : Nat) (hwf : a.data.length = prod a.shape)
+    (h1 : meanArr a k1 = .ok r1) (h2 : meanArr r1 k2 = .ok r2) (hk1 : k1 < a.shape.length)
+    (hk2 : k2 < (a.shape.eraseIdx k1).length) (ix : List Nat) (hv : ValidIx r2.shape ix) :
+    r2.data[flatIdx r2.shape ix]? =
+      some (((List.range (a.shape.eraseIdx k1)[k2]).map fun i2 =>
+        ((List.range a.shape[k1]).map fun i1 =>
+          (a.data[flatIdx a.shape ((ix.insertIdx k2 i2).insertIdx k1 i1)]?).getD 0).sum).sum) := by
+  obtain ⟨_, s1, d1⟩ := meanArr_ok_data a r1 k1 h1
+  obtain ⟨hk2', s2, d2⟩ := meanArr_ok_data r1 r2 k2 h2
+  have l1 : r1.data.length = prod r1.shape := by rw [d1, s1]; exact sumAxis_length _ _ _ hk1 hwf
+  rw [s2] at hv ⊢
+  rw [d2, sumAxis_value r1.shape k2 r1.data hk2' ix l1 hv]
+  congr 1
+  have e : r1.shape[k2] = (a.shape.eraseIdx k1)[k2] := by simp [s1]
+  rw [e]
+  congr 1
+  apply List.map_congr_left
+  intro i2 hi2
+  have hi2' : i2 < r1.shape[k2] := by rw [e]; simpa using hi2
+  have hv' := validIx_insert r1.shape k2 ix i2 hk2' hv hi2'
+  rw [s1] at hv'
+  have := sumAxis_value a.shape k1 a.data hk1 _ hwf hv'
+  rw [d1]
+  simp only [s1] at this ⊢
+  rw [this]
+  rfl
+
 /-! ### grids: the maps of the result -/
 
 theorem map_eraseIdx' {α β : Type} (f : α → β) : ∀ (l : List α) (k : Nat), (l.eraseIdx k).map f = (l.map f).eraseIdx k
